@@ -55,16 +55,16 @@ fn prestore(world: &World) {
 }
 
 #[derive(Clone, Debug, PartialEq, Eq)]
-struct DecOutcome {
-    out: Vec<u8>,
-    handled: usize,
-    err: bool,
+pub(crate) struct DecOutcome {
+    pub out: Vec<u8>,
+    pub handled: usize,
+    pub err: bool,
     quit: bool,
     panic: bool,
     dump: Vec<(Vec<u8>, Vec<u8>, u32)>,
 }
 
-fn run_decoder(chunks: &[&[u8]]) -> (DecOutcome, usize) {
+pub(crate) fn run_decoder(chunks: &[&[u8]]) -> (DecOutcome, usize) {
     let world = World::new(SutCfg { item_limit: LIMIT, policy: Policy::None });
     prestore(&world);
     let mut conn = world.conn();
@@ -237,14 +237,21 @@ pub fn check(tier: Tier, threads: usize) -> CheckOutcome {
         follower: usize,
         /// the stream starts with the answered requests set(f) + get(k) and has no follower
         prefixed: bool,
+        /// the frame on its own: no follower whose bytes could complete a short read
+        alone: bool,
+        /// prefixed stream with a noop behind the (oversized) frame
+        tail_noop: bool,
     }
     let mut jobs: Vec<Job> = vec![];
     for (i, f) in frames.iter().enumerate() {
         for (j, g) in followers.iter().enumerate() {
             let mut b = f.bytes();
             b.extend(g.bytes());
-            jobs.push(Job { name: format!("{}+{}", f.name, g.name), bytes: b, frames: vec![i], follower: j, prefixed: false });
+            jobs.push(Job { name: format!("{}+{}", f.name, g.name), bytes: b, frames: vec![i], follower: j, prefixed: false, alone: false, tail_noop: false });
         }
+    }
+    for (i, f) in frames.iter().enumerate() {
+        jobs.push(Job { name: format!("{} alone", f.name), bytes: f.bytes(), frames: vec![i], follower: 0, prefixed: false, alone: true, tail_noop: false });
     }
     let dec_results = par_map(&jobs, threads, |_, job| {
         let (base, _) = run_decoder(&[&job.bytes]);
@@ -292,19 +299,29 @@ pub fn check(tier: Tier, threads: usize) -> CheckOutcome {
         for (j, g) in followers.iter().enumerate() {
             let mut b = f.bytes();
             b.extend(g.bytes());
-            sjobs.push(Job { name: format!("{}+{}", f.name, g.name), bytes: b, frames: vec![i], follower: j, prefixed: false });
+            sjobs.push(Job { name: format!("{}+{}", f.name, g.name), bytes: b, frames: vec![i], follower: j, prefixed: false, alone: false, tail_noop: false });
         }
     }
     // answered requests in front of every frame the decoder rejects or the connection skips: what
     // was answered before the bad frame must reach the client wherever the stream is cut
     for (i, f) in frames.iter().enumerate() {
-        if f.well_formed {
+        if f.well_formed && f.req.body_length() <= LIMIT {
             continue;
         }
         let mut b = followers[1].bytes();
         b.extend(followers[2].bytes());
         b.extend(f.bytes());
-        sjobs.push(Job { name: format!("set+get+{}", f.name), bytes: b, frames: vec![i], follower: 0, prefixed: true });
+        sjobs.push(Job { name: format!("set+get+{}", f.name), bytes: b.clone(), frames: vec![i], follower: 0, prefixed: true, alone: false, tail_noop: false });
+        if f.req.body_length() > LIMIT {
+            // an oversized frame behind answered requests and in front of another one: its body is
+            // skipped wherever the reads fall
+            b.extend(followers[0].bytes());
+            sjobs.push(Job { name: format!("set+get+{}+noop", f.name), bytes: b, frames: vec![i], follower: 0, prefixed: true, alone: false, tail_noop: true });
+        }
+    }
+    // every frame on its own, cut everywhere: a complete request is taken however it arrives
+    for (i, f) in frames.iter().enumerate() {
+        sjobs.push(Job { name: format!("{} alone", f.name), bytes: f.bytes(), frames: vec![i], follower: 0, prefixed: false, alone: true, tail_noop: false });
     }
     if tier == Tier::Thorough {
         // all ordered pairs of corpus frames
@@ -313,7 +330,7 @@ pub fn check(tier: Tier, threads: usize) -> CheckOutcome {
                 let mut b = f.bytes();
                 b.extend(g.bytes());
                 b.extend(followers[0].bytes());
-                sjobs.push(Job { name: format!("{}+{}+noop", f.name, g.name), bytes: b, frames: vec![i, j], follower: 0, prefixed: false });
+                sjobs.push(Job { name: format!("{}+{}+noop", f.name, g.name), bytes: b, frames: vec![i, j], follower: 0, prefixed: false, alone: false, tail_noop: false });
             }
         }
     }
@@ -341,7 +358,7 @@ pub fn check(tier: Tier, threads: usize) -> CheckOutcome {
             // an oversized frame: pairs (and triples) of cuts inside its body, where the discard loop runs
             let l = job.bytes.len();
             let first = frames[job.frames[0]].bytes().len().min(l);
-            let p0 = if job.prefixed { l - first } else { 0 };
+            let p0 = if job.prefixed { l - first - if job.tail_noop { 24 } else { 0 } } else { 0 };
             let mut offs: Vec<usize> = vec![24, 25, 24 + 100, first / 4, first / 2, first / 2 + 1, 3 * first / 4, first - 1, first, first + 1, first + 24];
             for o in offs.iter_mut() {
                 *o += p0;
@@ -415,7 +432,10 @@ pub fn check(tier: Tier, threads: usize) -> CheckOutcome {
                 if job.prefixed {
                     fs.insert(0, &followers[2]);
                     fs.insert(0, &followers[1]);
-                } else {
+                    if job.tail_noop {
+                        fs.push(&followers[0]);
+                    }
+                } else if !job.alone {
                     fs.push(&followers[job.follower]);
                 }
                 let oversized = fs.iter().any(|f| f.req.body_length() > LIMIT);
